@@ -202,6 +202,32 @@ func c01Specs(thorough bool) []mb.Msg {
 			}
 		}
 	}
+	// API variants and builder histories: string-based setters, deleted parts, files removed and added again,
+	// two files with the same name, large contents (beyond every internal buffer size)
+	bigText := []byte(repeatTo("A fairly long line of text that is repeated until the content is larger than any buffer. =\r\n", 70000))
+	bigBin := make([]byte, 150000)
+	{
+		x := uint32(99)
+		for i := range bigBin {
+			x = x*1664525 + 1013904223
+			bigBin[i] = byte(x >> 24)
+		}
+	}
+	for _, menc := range encs {
+		for ti := range texts {
+			specs = append(specs,
+				mb.Msg{Enc: menc, Parts: []mb.Part{{Type: "text/plain", Content: texts[ti], Via: "string"}}},
+				mb.Msg{Enc: menc, Parts: []mb.Part{{Type: "text/plain", Content: texts[ti], Via: "string"}, {Type: "text/html", Content: texts[(ti+3)%len(texts)], Via: "string", Enc: encs[ti%3]}}},
+				mb.Msg{Enc: menc, Parts: []mb.Part{{Type: "text/plain", Content: texts[ti]}, {Type: "text/html", Content: texts[(ti+1)%len(texts)], Deleted: true}}, Attach: []mb.File{{Name: "a.bin", Content: bins[ti%len(bins)]}}},
+				mb.Msg{Enc: menc, Parts: []mb.Part{{Type: "text/plain", Content: texts[ti], Deleted: true}, {Type: "text/html", Content: texts[(ti+1)%len(texts)]}, {Type: "text/plain", Content: texts[(ti+2)%len(texts)]}}},
+				mb.Msg{Enc: menc, Parts: []mb.Part{{Type: "text/plain", Content: texts[ti]}}, Embeds: []mb.File{{Name: "same.bin", Content: bins[ti%len(bins)]}, {Name: "same.bin", Content: bins[(ti+1)%len(bins)]}}, Attach: []mb.File{{Name: "same.bin", Content: bins[(ti+2)%len(bins)]}}, ReAdd: ti%2 == 0},
+			)
+		}
+		specs = append(specs,
+			mb.Msg{Enc: menc, Parts: []mb.Part{{Type: "text/plain", Content: bigText}}},
+			mb.Msg{Enc: menc, Parts: []mb.Part{{Type: "text/plain", Content: bigText, Via: "string"}, {Type: "text/html", Content: bigText, Enc: "b64"}}, Attach: []mb.File{{Name: "big.bin", Content: bigBin}, {Name: "big.txt", Content: bigText, Enc: "8bit"}}, Embeds: []mb.File{{Name: "big.png", Content: bigBin[:70001]}}},
+		)
+	}
 	// all content strings in every leaf position of the full three-level shape
 	for i := range texts {
 		for j := range bins {
